@@ -10,10 +10,14 @@
    `used` is the ledger of (key, nonce) pairs.  Limits: a payload unit carries at most MaxPayload.
    Deviations: "LenNoStep" the length unit does not advance the counter; "KeyReuse" a new session
    re-uses an earlier session's randomness; "IdStuck" the packet id is not advanced between
-   datagrams; "OverLimit" a chunk exceeds the sender limit.                                      *)
+   datagrams; "OverLimit" a chunk exceeds the sender limit; "StampAtCreate" the timestamp a
+   session's first unit carries is taken when the session object is created, not when it is sent.
+   Time: `now` ticks (at most MaxIdle times); a session is `born` when its object is created (a
+   connection is accepted / a local handshake ends) and may seal its first unit any time later;
+   `stamp` is the timestamp on that first unit minus the clock at the moment it is sealed.        *)
 EXTENDS Integers, Sequences, FiniteSets, TLC
 
-CONSTANTS MaxSessions, MaxUnits, MaxPayload, Sizes, Dev
+CONSTANTS MaxSessions, MaxUnits, MaxPayload, Sizes, MaxIdle, Dev
 
 VARIABLES sessions,   \* number of sessions started
           key,        \* key (an id) of the current session
@@ -21,18 +25,26 @@ VARIABLES sessions,   \* number of sessions started
           used,       \* ledger: set of <<key, nonce>>
           units,      \* units sealed in the current session
           phase,      \* "len" | "pay" : what the stream emits next
-          clean       \* FALSE once a pair was reused or a limit broken
+          clean,      \* FALSE once a pair was reused or a limit broken
+          now, born,  \* clock; creation time of the current session object
+          stamp       \* (timestamp on the current session's first unit) - (clock when it was sealed)
 
-vars == <<sessions, key, ctr, used, units, phase, clean>>
+vars == <<sessions, key, ctr, used, units, phase, clean, now, born, stamp>>
 
-Init == sessions = 0 /\ key = 0 /\ ctr = 0 /\ used = {} /\ units = 0 /\ phase = "len" /\ clean = TRUE
+Init == /\ sessions = 0 /\ key = 0 /\ ctr = 0 /\ used = {} /\ units = 0 /\ phase = "len" /\ clean = TRUE
+        /\ now = 0 /\ born = 0 /\ stamp = 0
+
+Tick == now < MaxIdle /\ now' = now + 1 /\ UNCHANGED <<sessions, key, ctr, used, units, phase, clean, born, stamp>>
+\* the first unit of a session carries the timestamp
+Stamped == stamp' = IF units = 0 THEN (IF "StampAtCreate" \in Dev THEN born ELSE now) - now ELSE stamp
 
 NewSession ==
   /\ sessions < MaxSessions
   /\ sessions' = sessions + 1
   /\ key' = IF "KeyReuse" \in Dev /\ sessions > 0 THEN key ELSE sessions + 1     \* fresh randomness => fresh key
   /\ ctr' = 0 /\ units' = 0 /\ phase' = "len"
-  /\ UNCHANGED <<used, clean>>
+  /\ born' = now /\ stamp' = 0
+  /\ UNCHANGED <<used, clean, now>>
 
 Seal(n, size) ==
   /\ clean' = (clean /\ <<key, n>> \notin used /\ size <= MaxPayload)
@@ -42,8 +54,8 @@ SealLen ==
   /\ sessions > 0 /\ units < MaxUnits /\ phase = "len"
   /\ Seal(ctr, 2)
   /\ ctr' = IF "LenNoStep" \in Dev THEN ctr ELSE ctr + 1
-  /\ units' = units + 1 /\ phase' = "pay"
-  /\ UNCHANGED <<sessions, key>>
+  /\ units' = units + 1 /\ phase' = "pay" /\ Stamped
+  /\ UNCHANGED <<sessions, key, now, born>>
 
 SealPay ==
   /\ sessions > 0 /\ units < MaxUnits /\ phase = "pay"
@@ -52,19 +64,20 @@ SealPay ==
        /\ Seal(ctr, size)
   /\ ctr' = ctr + 1
   /\ units' = units + 1 /\ phase' = "len"
-  /\ UNCHANGED <<sessions, key>>
+  /\ UNCHANGED <<sessions, key, now, born, stamp>>
 
 \* a datagram session: one unit, nonce = packet id (ctr carries the id across datagrams of a UDP session)
 SealDatagram ==
   /\ sessions > 0 /\ units < MaxUnits /\ phase = "len"
   /\ \E size \in Sizes : size <= MaxPayload /\ Seal(ctr, size)
   /\ ctr' = IF "IdStuck" \in Dev THEN ctr ELSE ctr + 1
-  /\ units' = units + 1
-  /\ UNCHANGED <<sessions, key, phase>>
+  /\ units' = units + 1 /\ Stamped
+  /\ UNCHANGED <<sessions, key, phase, now, born>>
 
-Next == NewSession \/ SealLen \/ SealPay \/ SealDatagram
+Next == NewSession \/ SealLen \/ SealPay \/ SealDatagram \/ Tick
 Spec == Init /\ [][Next]_vars
 
 NoReuse == clean
+SentFresh == stamp = 0
 CountersAdvance == ctr = units \/ "LenNoStep" \in Dev \/ "IdStuck" \in Dev
 =============================================================================
